@@ -397,6 +397,34 @@ def run(ctx):
                         if x.get("k") == "subscript" and c03.raw_byte_getter(val, x):
                             used.add(c03.raw_byte_getter(val, x).split("::")[-1])
                 extra = used - ALLOWED[cls]
+                # the payload size takes part in validity only as a bound: `size >= K`, or `length field (+ K) <= size (- K)`; anything else
+                # (a modulus, a mask, an exact size) makes payloads of some lengths invalid although their header and lengths fit
+                size_in = any(x.get("k") == "ref" and x.get("decl") == sizep for nd in nodes for x in walk(facts.expand(val, nd)))
+                if size_in and not extra:
+                    def sy2(z):
+                        if z.get("k") == "ref" and z.get("decl") == sizep:
+                            return "n"
+                        if z.get("k") == "call" and "::Header::get" in (callee_name(z) or ""):
+                            return "L:" + callee_name(z).split("::")[-1]
+                        if z.get("k") == "subscript" and c03.raw_byte_getter(val, z):
+                            return "L:" + c03.raw_byte_getter(val, z).split("::")[-1]
+                        return None
+                    lin_ok = False
+                    if a[0] == "cmp" and a[2] in (">=", ">", "<", "<="):
+                        l2, r2 = _lin4(val, a[4], sy2), _lin4(val, a[5], sy2)
+                        if l2 is not None and r2 is not None:
+                            d2 = dict(l2)
+                            for k2, v2 in r2.items():
+                                d2[k2] = d2.get(k2, 0) - v2
+                            op2 = a[2]
+                            if d2.get("n", 0) < 0:
+                                d2 = {k2: -v2 for k2, v2 in d2.items()}
+                                op2 = {"<": ">", "<=": ">=", ">": "<", ">=": "<="}[op2]
+                            others = {k2: v2 for k2, v2 in d2.items() if k2 not in ("n", 1) and v2}
+                            lin_ok = d2.get("n") == 1 and op2 in (">", ">=") and all(str(k2).startswith("L:") and v2 == -1 for k2, v2 in others.items())
+                    if not lin_ok:
+                        badv = badv or "the payload size enters the decision through `%s`, which is not a lower bound on it: payloads of some sizes are turned " \
+                            "invalid although their header and announced lengths fit" % ((a[1][:70] + " " + a[2] + " " + str(a[3])[:30]) if a[0] == "cmp" else a[1][:90])
                 if extra:
                     badv = badv or "it accepts a payload only under `%s`, which looks at %s" % ((a[1][:70] + " " + a[2] + " " + a[3][:30]) if a[0] == "cmp" else a[1][:90], sorted(extra))
                 elif not used and a[0] == "cmp" and a[2] in (">=", ">", "<", "<="):
